@@ -384,25 +384,37 @@ MEMORY_ONLY = ("RESHAPE", "SQUEEZE", "EXPAND_DIMS")
 
 def classify_failure(o, ans):
     """stable key of a known finding (see known_findings.txt), or None. Only the structure of the source
-    network is consulted; the verdict itself is Lean's."""
+    network is consulted; the verdict itself is Lean's. Memory-only operators (RESHAPE, SQUEEZE, EXPAND_DIMS) are
+    bypassed by the compiler, so a producer is looked up through them."""
     g = o.get("src_graph") or []
-    producer, consumers = {}, {}
+    raw_producer, consumers = {}, {}
     for kind, ins, outs, faf, pad, stride_w in g:
         for t in outs:
-            producer[t] = (kind, faf, ins)
+            raw_producer[t] = (kind, faf, ins)
         for t in ins:
             consumers.setdefault(t, []).append(kind)
+
+    def through(t):
+        """tensor reached by walking back through memory-only operators"""
+        while t in raw_producer and raw_producer[t][0] in MEMORY_ONLY:
+            t = raw_producer[t][2][0]
+        return t
+
+    def producer_of(t):
+        return raw_producer.get(through(t), (None, 0, []))
+
+    slices = ("STRIDED_SLICE", "SPLIT")
     if "do_not_fit_the_IFM_depth" in ans:
         # slice folded into a convolution whose width stride is folded into the channels (fixup_strided_conv)
         for kind, ins, outs, faf, pad, stride_w in g:
-            if kind == "CONV_2D" and stride_w > 1 and ins and ins[0] in producer and producer[ins[0]][0] in ("STRIDED_SLICE", "SPLIT"):
+            if kind == "CONV_2D" and stride_w > 1 and ins and producer_of(ins[0])[0] in slices:
                 return "slice-folded-into-width-folded-strided-conv-keeps-unfolded-depth"
         return None
     if "do_not_fit_kernel" in ans:
         # PAD folded into the padding of a VALID convolution / pool whose output is consumed through a RESHAPE
         for kind, ins, outs, faf, pad, stride_w in g:
-            if kind in ("CONV_2D", "DEPTHWISE_CONV_2D", "AVERAGE_POOL_2D") and pad == 1 and ins and ins[0] in producer \
-                    and producer[ins[0]][0] == "PAD" and any(c in MEMORY_ONLY for c in consumers.get(outs[0], [])):
+            if kind in ("CONV_2D", "DEPTHWISE_CONV_2D", "AVERAGE_POOL_2D") and pad == 1 and ins and producer_of(ins[0])[0] == "PAD" \
+                    and any(c in MEMORY_ONLY for c in consumers.get(outs[0], [])):
                 return "pad-folded-into-conv-then-reshape-resets-ofm-shape"
         return None
     if "read_outside_region" in ans or ans.endswith("verdict=fail"):
@@ -416,34 +428,31 @@ def classify_failure(o, ans):
             all(int(d) <= 1 for d in re.findall(r"maxdiff=(\d+)", ans)):
         return "int16-fully-connected-rounds-twice"
     for kind, ins, outs, faf, pad, stride_w in g:
-        if kind in ("STRIDED_SLICE", "SPLIT"):
+        if kind in slices:
             src = ins[0] if kind == "STRIDED_SLICE" else ins[1]
-            if src in producer and producer[src][0] in ("STRIDED_SLICE", "SPLIT"):
+            if producer_of(src)[0] in slices:
                 return "slice-of-slice-read-offsets-not-accumulated"
     for kind, ins, outs, faf, pad, stride_w in g:
-        if kind in ("CONV_2D", "DEPTHWISE_CONV_2D", "MAX_POOL_2D", "AVERAGE_POOL_2D") and ins and ins[0] in producer:
-            pk, _pf, pins = producer[ins[0]]
+        if kind in ("CONV_2D", "DEPTHWISE_CONV_2D", "MAX_POOL_2D", "AVERAGE_POOL_2D") and ins:
+            pk, _pf, pins = producer_of(ins[0])
             # padded window directly on the slice (SAME), or through a PAD that is folded into the window's padding
-            if (pad == 0 and pk in ("STRIDED_SLICE", "SPLIT")) or \
-                    (pk == "PAD" and pins and pins[0] in producer and producer[pins[0]][0] in ("STRIDED_SLICE", "SPLIT")):
+            if (pad == 0 and pk in slices) or (pk == "PAD" and pins and producer_of(pins[0])[0] in slices):
                 return "slice-read-offset-window-rows-not-clamped-to-slice"
     for kind, ins, outs, faf, pad, stride_w in g:
-        if kind == "AVERAGE_POOL_2D" and pad == 1 and faf != 0 and ins and ins[0] in producer and producer[ins[0]][0] == "PAD":
+        if kind == "AVERAGE_POOL_2D" and pad == 1 and faf != 0 and ins and producer_of(ins[0])[0] == "PAD":
             return "pad-folded-into-avgpool-fused-activation-clamps-with-zero-point-0"
     for kind, ins, outs, faf, pad, stride_w in g:
-        if kind in RELUS and ins and ins[0] in producer:
-            pk, pf, _pins = producer[ins[0]]
-            if pk in ("STRIDED_SLICE", "SPLIT"):
+        if kind in RELUS and ins:
+            direct = raw_producer.get(ins[0], (None, 0, []))
+            pk, pf, _pins = producer_of(ins[0])
+            if pk in slices:
                 return "activation-after-slice-fused-into-producer-drops-read-offset"
             if pf != 0 or pk in ACTIVATION_LIKE:
                 return "packed-relu-overrides-fused-activation"
             if pk in ("QUANTIZE", "PAD"):
                 return "relu-fused-into-avgpool-that-keeps-its-zero-point-adds-it-twice"
             # activation reached from a graph input through memory-only operators only
-            t = ins[0]
-            while t in producer and producer[t][0] in MEMORY_ONLY:
-                t = producer[t][2][0]
-            if t in (o.get("src_inputs") or []) and t != ins[0]:
+            if direct[0] in MEMORY_ONLY and through(ins[0]) in (o.get("src_inputs") or []):
                 return "reshape-of-graph-input-then-activation-becomes-plain-copy"
     return None
 
